@@ -5,4 +5,5 @@ git -C /repo diff --quiet -- include || { echo "/repo has local changes; refusin
 git -C /repo apply "$P" || { echo APPLY-FAILED; exit 2; }
 cd /verif && ./check "$ID" "$TIER"; RC=$?
 git -C /repo checkout -- .
+python3 /verif/tools/regen.py >/dev/null 2>&1
 echo "exit=$RC"
